@@ -30,7 +30,8 @@ def make_fused_target(cuqi, case, fuse):
     P = np.array(case["P"], float); b = np.array(case["b"], float)
     wall, kind = case["wall"], case.get("wall_kind", "nan")
 
-    def tick(site):
+    def tick(site, x):
+        # the k-th call (periodic leapfrog orbits revisit points exactly, so calls cannot be de-duplicated by value)
         if fuse.get("armed") and fuse["site"] == site:
             fuse["count"] += 1
             if fuse["count"] == fuse["k"]:
@@ -39,14 +40,14 @@ def make_fused_target(cuqi, case, fuse):
 
     def logpdf(x):
         x = np.asarray(x, dtype=float).ravel()
-        tick("logd")
+        tick("logd", x)
         if wall is not None and x[0] > wall:
             return WALLVAL[kind]
         return float(b @ x - 0.5 * x @ (P @ x))
 
     def grad(x):
         x = np.asarray(x, dtype=float).ravel()
-        tick("grad")
+        tick("grad", x)
         return b - P @ x
 
     return cuqi.distribution.UserDefinedDistribution(dim=len(b), logpdf_func=logpdf, gradient_func=grad), logpdf, grad
